@@ -41,6 +41,14 @@ CLAIMED = {
              "(a broadcast degenerating to signal is reported); the PMutex pointer cast to pthread_mutex_t* is justified by the record "
              "layout of struct PMutex_ (pthread_mutex_t at offset 0). " + DECIDES % "C03",
         technique="wrapper-wiring check plus cross-unit record-layout check"),
+    "C19": dict(
+        text="Rules C19.1-C19.4 over every call site of an interruptible blocking call in the library (sem_open x2, sem_wait, shm_open x2, "
+             "connect, accept, recv, recvfrom, send, sendto, poll, clock_nanosleep): in the scenario 'this evaluation failed with EINTR on "
+             "the error channel POSIX defines for the call' (errno, or the return value for clock_nanosleep) every feasible path re-issues "
+             "the same call before any function exit (paths leaving through the genuine failure of a different fallible call are excused); "
+             "the sleep is re-issued with the remainder the call filled in and 0 is returned only after the call returned 0; close() is not "
+             "retried. " + DECIDES % "C19",
+        technique="scenario-seeded path-sensitive guard dataflow from each blocking call site (must-reach-retry-before-exit), POSIX error-channel table"),
 }
 
 NOT_YET = "check not yet armed (framework under construction); see DESIGN.md section 4 for the planned structural clauses"
